@@ -41,38 +41,39 @@ Definition step1 (ok : N -> bool) (s : mstate) : list mstate :=
   | [] => []
   end.
 
-(* iterate [body]: greedy = try one more iteration first; lazy = try to stop first.  An
-   iteration that consumes nothing is not repeated (the bodies of the token rules cannot
-   match the empty string — [rx_wf] — so that guard never fires; see mres_star_guard). *)
+(* iterate [body]: greedy = try one more iteration first; lazy = try to stop first.  [fuel]
+   bounds the number of iterations; any fuel >= the length of the rest of the input is exact
+   because the bodies of the token rules cannot match the empty string ([rx_wf], checked by
+   computation on the generated rules; the translator refuses a repeat whose body may be
+   empty, for which sre has special rules that are not modelled). *)
 Fixpoint star_loop (body : mstate -> list mstate) (greedy : bool) (fuel : nat) (s : mstate) : list mstate :=
   match fuel with
   | O => [s]
   | S f =>
-      let more := flat_map (fun s' => if Nat.ltb (length (snd s')) (length (snd s))
-                                      then star_loop body greedy f s' else []) (body s) in
+      let more := flat_map (star_loop body greedy f) (body s) in
       if greedy then more ++ [s] else s :: more
   end.
 
-Fixpoint mres (r : rx) (s : mstate) {struct r} : list mstate :=
+Fixpoint mres (fuel : nat) (r : rx) (s : mstate) {struct r} : list mstate :=
   match r with
   | XEps => [s]
   | XChar _ | XNotChar _ | XAny | XIn _ _ => step1 (atom_ok r) s
   | XBound => if boundary s then [s] else []
-  | XSeq a b => flat_map (mres b) (mres a s)
-  | XAlt a b => mres a s ++ mres b s
-  | XStar g a => star_loop (mres a) g (S (length (snd s))) s
+  | XSeq a b => flat_map (mres fuel b) (mres fuel a s)
+  | XAlt a b => mres fuel a s ++ mres fuel b s
+  | XStar g a => star_loop (mres fuel a) g fuel s
   end.
 
 (* pattern.match: the first success *)
-Definition rmatch (r : rx) (s : mstate) : option mstate := hd_error (mres r s).
+Definition rmatch (fuel : nat) (r : rx) (s : mstate) : option mstate := hd_error (mres fuel r s).
 
 (* the master regex: first rule (in order) that matches *)
-Fixpoint first_rule (rules : list rule) (s : mstate) : option (rule * mstate) :=
+Fixpoint first_rule (fuel : nat) (rules : list rule) (s : mstate) : option (rule * mstate) :=
   match rules with
   | [] => None
-  | r :: t => match rmatch (r_rx r) s with
+  | r :: t => match rmatch fuel (r_rx r) s with
               | Some s' => Some (r, s')
-              | None => first_rule t s
+              | None => first_rule fuel t s
               end
   end.
 
@@ -134,7 +135,7 @@ Fixpoint lex_items (fuel : nat) (prev : option N) (rest : list N) (pos : Z) (lin
           if cp_mem c lex_ignore then
             let '(its, e, rem) := lex_items f (Some c) rest' (pos + 1)%Z line in (IIgn c :: its, e, rem)
           else
-            match first_rule lex_rules (prev, rest) with
+            match first_rule f lex_rules (prev, rest) with
             | Some (r, (prev', rest'')) =>
                 let n := (length rest - length rest'')%nat in
                 let lx := firstn n rest in
